@@ -127,7 +127,7 @@ func (f *File) Write(rdr io.Reader) error {
 	if err := os.Chmod(tmpFullname, mode); err != nil {
 		return err
 	}
-	if uid > 0 && gid > 0 {
+	if uid >= 0 && gid >= 0 {
 		_ = os.Chown(tmpFullname, uid, gid)
 	}
 	// move temp file to target filename
